@@ -2,6 +2,8 @@
 PROP = dict(
         module='kernel', pkg='mm/vmm', pkgname='vmm', harness=['vmm/c07_test.go'],
         n=dict(quick=400, thorough=20000),
+    extra_runs=[dict(module='kernel', pkg='mm/pmm', pkgname='pmm', harness=['pmm/pmm_test.go', 'pmm/c07pmm_test.go'],
+                     test='TestVerifC07Pmm', n=dict(quick=100, thorough=3000))],
     anchors='C07.json', expr_imports=['Firefly.Gen.C07'],
         nontrivial=r'\| 1 ',
         rule='one evaluation = one EarlyReserveRegion / MapRegion / IdentityMapRegion call on the real code, '
